@@ -75,7 +75,7 @@ Sub(a, b)     == SubSeq(src, a, b - 1)                              \* character
 
 -----------------------------------------------------------------------------
 \* DIALECT SWITCHES (every documented difference between the three scanners)
-\* Repairs of the XGo scanner committed to /repo (`fix:` commits ead8333, 7645ecf, 8b7f5d9, 7e77a61).  With a tag removed the xgo dialect models the scanner before that repair.
+\* Repairs of the XGo scanner committed to /repo (`fix:` commits ead8333, 7645ecf, 8b7f5d9 + 9bba499, 7e77a61).  With a tag removed the xgo dialect models the scanner before that repair.
 \* (The repairs 60a3978 "UNIT offset" and 42ff237 "# at EOF" need no switch: the model always had the
 \* behaviour the property demands.)
 XGoFixed == {"tilde", "sharp-empty", "sharp-star", "findlineend-sharp"}
@@ -161,7 +161,10 @@ CommentLit(b) ==
            dropLast == n0 > 0 /\ Len(b) >= 2 /\ b[2] = SL /\ b[Len(b)] = CR
            b1 == IF dropLast THEN SubSeq(b, 1, Len(b) - 1) ELSE b
            n1 == IF dropLast THEN n0 - 1 ELSE n0
-       IN IF n1 > 0 THEN StripCR(b1, Len(b1) >= 2 /\ b1[2] = STAR /\ KeepStarCRSlash) ELSE b1
+           \* stripCR(lit, comment): since repair 9bba499 (part of "sharp-star") a `#*` line comment no longer
+           \* counts as a /* */ comment here either
+           blk == Len(b1) >= 2 /\ b1[2] = STAR /\ (b1[1] = SL \/ (dia = "xgo" /\ "sharp-star" \notin XGoFixed))
+       IN IF n1 > 0 THEN StripCR(b1, blk /\ KeepStarCRSlash) ELSE b1
 RawStringLit(b) == IF HasCRFrom(b, 2) THEN StripCR(b, FALSE) ELSE b
 
 -----------------------------------------------------------------------------
